@@ -92,6 +92,9 @@ pub struct Reflex {
     pub closing_channels: std::collections::HashSet<u16>,
     /// The server has sent Connection.Close: everything but CloseOk is discarded.
     pub conn_closing: bool,
+    /// Channels the client has closed (Channel.Close seen) and not reopened: a real
+    /// broker cannot close those any more.
+    pub client_closed_channels: std::collections::HashSet<u16>,
     pub custom: Option<Custom>,
 }
 
@@ -130,6 +133,7 @@ impl Default for Reflex {
             chan_close_oks: Vec::new(),
             closing_channels: Default::default(),
             conn_closing: false,
+            client_closed_channels: Default::default(),
             custom: None,
         }
     }
@@ -377,10 +381,26 @@ impl Reflex {
         // a peer that has sent Close discards everything but Close / CloseOk
         let is_close_ok = matches!(f.method(), Some(AMQPClass::Channel(Ch::CloseOk(_))) | Some(AMQPClass::Connection(Cn::CloseOk(_))));
         if (self.conn_closing || self.closing_channels.contains(&f.ch)) && !is_close_ok {
+            // ... except that a Close that crossed ours is still answered with CloseOk
+            if !self.conn_closing {
+                if let Some(AMQPClass::Channel(Ch::Close(_))) = f.method() {
+                    self.client_closed_channels.insert(f.ch);
+                    out.push(enc_method(f.ch, AMQPClass::Channel(Ch::CloseOk(channel::CloseOk {}))));
+                }
+            }
             return;
         }
         if let Some(AMQPClass::Channel(Ch::CloseOk(_))) = f.method() {
             self.closing_channels.remove(&f.ch);
+        }
+        match f.method() {
+            Some(AMQPClass::Channel(Ch::Close(_))) => {
+                self.client_closed_channels.insert(f.ch);
+            }
+            Some(AMQPClass::Channel(Ch::Open(_))) => {
+                self.client_closed_channels.remove(&f.ch);
+            }
+            _ => {}
         }
         if let Some(mut c) = self.custom.take() {
             let handled = c(f, self, out, end);
